@@ -1,4 +1,6 @@
 import B2Z.Model.EncodeProto
+import B2Z.Proofs.Fs
+import B2Z.Proofs.EncodeProto
 /-! # C06 — distributed encode is crash-safe: never falsely finished, reruns recover
 
 Model: `B2Z.EP` (`Model/EncodeProto.lean`).  Histories follow the protocol order (`legal`: no
@@ -26,6 +28,9 @@ structure Cfg.WF (c : Cfg) : Prop where
   rmStale_ok : ∀ j, ∀ p ∈ c.rmStale j, p.2 ≠ .ok
   /-- every entry a partition owns is listed when its directory is scanned -/
   mv_all : ∀ j a, ∀ e ∈ c.ents j a, e ∈ c.mvOrder j a
+  /-- … and no entry is listed twice (a directory listing has no duplicates): a second
+      `os.rename` of the same entry would replace the moved entry by nothing -/
+  mv_nodup : ∀ j a, (c.mvOrder j a).Nodup
   /-- `rmtree(wip)` touches nothing outside `wip/` and never creates anything -/
   rmWip_side : ∀ p ∈ c.rmWip, p.1.wipSide = true ∧ p.2 ≠ .ok
   /-- `rmtree(wip)` removes the plan -/
@@ -35,13 +40,26 @@ structure Cfg.WF (c : Cfg) : Prop where
     metadata then every array is at its final place with every chunk of every partition -/
 theorem C06_never_falsely_finished (c : Cfg) (wf : c.WF) (h : List (Cmd × Option Nat)) (hl : legal h = true) :
     finished (runHist c Fs.empty h) = true → StoreComplete c (runHist c Fs.empty h) := by
-  sorry
+  intro hf
+  have w : WFH c := ⟨wf.arrays_pos, wf.init_tmpl, wf.wseq_private, wf.wseq_complete, wf.mv_all,
+    wf.mv_nodup, fun p hp => (wf.rmWip_side p hp).1, wf.rmWip_plan⟩
+  exact (InvB_reachable w h hl).1.complete (by simpa [finished] using hf)
 
 /-- **finalise refuses** while any partition is unencoded, and changes nothing -/
 theorem C06_finalise_refuses_unencoded (c : Cfg) (s : S) (kill : Option Nat)
     (h : ∃ j, j < c.nParts ∧ s (.pdir j) = .absent) :
     (step c s .finalise kill).error = true ∧ (step c s .finalise kill).st = s := by
-  sorry
+  obtain ⟨j, hj, hs⟩ := h
+  show (exec s (finaliseProg c s) kill).error = true ∧ (exec s (finaliseProg c s) kill).st = s
+  rw [finaliseProg_eq]
+  by_cases hp : s .plan = .ok
+  · rw [exec_check_pass _ _ _ _ (by simpa using hp)]
+    apply exec_check_fail
+    rw [Bool.eq_false_iff]
+    intro hall
+    have := List.all_eq_true.1 hall j (List.mem_range.2 hj)
+    simp [hs] at this
+  · exact exec_check_fail _ _ _ _ (by simpa using hp)
 
 def noFinalise (h : List (Cmd × Option Nat)) : Bool := h.all fun x => x.1 ≠ Cmd.finalise
 
@@ -51,7 +69,12 @@ theorem C06_partition_rerun_restores (c : Cfg) (wf : c.WF) (h : List (Cmd × Opt
     (hplan : runHist c Fs.empty h .plan = .ok) (j : Nat) (hj : j < c.nParts) :
     let o := step c (runHist c Fs.empty h) (.partition j) none
     o.error = false ∧ o.st (.pdir j) = .ok ∧ ∀ r ∈ allRefs c j, o.st (r.p j) = .ok := by
-  sorry
+  have w : WFH c := ⟨wf.arrays_pos, wf.init_tmpl, wf.wseq_private, wf.wseq_complete, wf.mv_all,
+    wf.mv_nodup, fun p hp => (wf.rmWip_side p hp).1, wf.rmWip_plan⟩
+  have hA : InvA c (runHist c Fs.empty h) :=
+    InvA_runHist w h (by simpa [noFinalise] using hn) _ (InvA_empty c)
+  obtain ⟨h1, _, _, h2, h3, _⟩ := partition_complete w hA hplan hj
+  exact ⟨h1, h2, h3⟩
 
 /-- **recovery**: after any history of init / partition commands (any kills), encoding every
     partition — in any order, any number of times — and finalising gives a finished, complete store -/
@@ -60,14 +83,24 @@ theorem C06_recovery (c : Cfg) (wf : c.WF) (h : List (Cmd × Option Nat)) (hn : 
     (order : List Nat) (hall : ∀ j, j < c.nParts → j ∈ order) (hrange : ∀ j ∈ order, j < c.nParts) :
     let s := runHist c (runHist c Fs.empty h) (order.map (fun j => (Cmd.partition j, none)) ++ [(Cmd.finalise, none)])
     finished s = true ∧ StoreComplete c s ∧ s .plan = .absent := by
-  sorry
+  have w : WFH c := ⟨wf.arrays_pos, wf.init_tmpl, wf.wseq_private, wf.wseq_complete, wf.mv_all,
+    wf.mv_nodup, fun p hp => (wf.rmWip_side p hp).1, wf.rmWip_plan⟩
+  have hA : InvA c (runHist c Fs.empty h) :=
+    InvA_runHist w h (by simpa [noFinalise] using hn) _ (InvA_empty c)
+  exact rerun_complete w order _ hA hplan hrange (fun j hj => Or.inl (hall j hj))
 
 /-- **finalise rerun**: re-running an interrupted finalise either fails with an error or ends with
     a finished and complete store — never a third outcome -/
 theorem C06_finalise_rerun_completes_or_errors (c : Cfg) (wf : c.WF) (h : List (Cmd × Option Nat)) (hl : legal h = true) :
     let o := step c (runHist c Fs.empty h) .finalise none
     o.error = true ∨ (finished o.st = true ∧ StoreComplete c o.st) := by
-  sorry
+  have w : WFH c := ⟨wf.arrays_pos, wf.init_tmpl, wf.wseq_private, wf.wseq_complete, wf.mv_all,
+    wf.mv_nodup, fun p hp => (wf.rmWip_side p hp).1, wf.rmWip_plan⟩
+  obtain ⟨_, h2⟩ := finalise_complete w (InvB_reachable w h hl)
+  intro o
+  cases he : o.error with
+  | true => exact Or.inl rfl
+  | false => exact Or.inr ⟨(h2 he).1, (h2 he).2.1⟩
 
 /-- finding F4 (fixed): with the old in-place delete, a partition rerun killed inside
     `rmtree(p<j>)` leaves a partial `p<j>` that finalise accepts — a finished store with a hole.
